@@ -176,6 +176,7 @@ def r1_r2_r5(ctx):
             ctx.check("C05.R2", okk, key(f, "dispatch-fresh-request"), site(f, c), "handle_request can be called with a request that was not returned by next(parser) in this iteration",
                       "req = next(parser) dominates dispatch")
     stale_request(ctx)
+    stale_to_handle_error(ctx)
     # who may call the application
     n = 0
     for f in repo.funcs():
@@ -219,6 +220,38 @@ def stale_request(ctx):
             ctx.check("C05.R2", bad is None, key(f, "stale-request-in-loop"), site(f, c),
                       "in the keep-alive loop `%s` still holds the previous (answered) request when next(parser) is called again: if that parse fails, handle_error() gets the old request "
                       "and writes a second access-log record / error status for it" % R, "`%s = None` before every next(parser)" % R)
+
+
+def stale_to_handle_error(ctx):
+    """the variable given to handle_error(req, ..) never still names a request that was already answered: between a
+    completed handle_request(.. V ..) and a failing next(parser) -- whose exception is what reaches the handler -- V is
+    reset or re-assigned (otherwise the old request gets a second access-log record with the error status)"""
+    repo = ctx.repo
+    for q in HANDLES:
+        f = repo.func(q)
+        g = f.cfg
+        nexts = [n for x in walk_own(f.node) if isinstance(x, ast.Call) and isinstance(x.func, ast.Name) and x.func.id == "next" for n in nodes_with(f, x)]
+        hes = [(n, c) for c in walk_own(f.node) if isinstance(c, ast.Call) and (repo.call_target(f.module, f, c) or "").endswith(".handle_error") and c.args and isinstance(c.args[0], ast.Name)
+               for n in nodes_with(f, c)]
+        hrs = [(n, c) for c in walk_own(f.node) if isinstance(c, ast.Call) and (repo.call_target(f.module, f, c) or "").endswith(".handle_request") for n in nodes_with(f, c)]
+        for hn, hc in hes:
+            V = hc.args[0].id
+            served = [n for n, c in hrs if any(isinstance(a, ast.Name) and a.id == V for a in c.args)]
+            stores = [sn for sn in stores_to_name(f, V)]
+            bad = None
+            for qn in served:
+                for nx in nexts:
+                    # answered request -> next parse starts, V untouched ...
+                    reach = g.reachable([(qn, "next")], without_nodes=[x for x in stores if x is not nx], follow_exc=False)
+                    if nx not in reach:
+                        continue
+                    # ... the parse fails and the exception lands in the clause that calls handle_error(V)
+                    r2 = g.reachable([(nx, "exc")], without_nodes=stores, follow_exc=True)
+                    if hn in r2:
+                        bad = (qn, nx)
+            ctx.check("C05.R2", bad is None, key(f, "stale-request-to-handle_error|" + V), site(f, hn),
+                      "`%s` still names the previous (answered and logged) request when the next next(parser) fails: handle_error(%s, ..) writes a second access-log record, with the "
+                      "error status, for a request the client already got a response to" % (V, V), "`%s` reset before every next(parser)" % V)
 
 
 def explore_handle_error(repo, payload):
